@@ -447,6 +447,30 @@ def run(ctx):
             ctx.nontrivial(('lazy-structural', sym, str(sorted(x0.blocks)), str(sorted(x0.phases))))
         except (ValueError, KeyError, IndexError) as e:
             raised['lazy_scenario:' + type(e).__name__] = raised.get('lazy_scenario:' + type(e).__name__, 0) + 1
+    # ---- expand_dims with an explicit (non-zero) charge at every position, direction inherited or given
+    for k in range(n_prog):
+        sym = SYMS[k % len(SYMS)]
+        try:
+            x0 = gen.rand_array(rng, sr, sym, ndim=rng.randint(1, 3), maxsize=2, keep=rng.choice([1.0, 0.7]), static=False)
+            if not x0.blocks:
+                continue
+            x0_full = rl.describe_safe(x0)
+            cval = rng.choice([c for c in gen.SMALL[sym] if c != refsym.zero(sym)] or [refsym.zero(sym)])
+            for ax in range(x0.ndim + 1):
+                for dual in (None, True, False):
+                    nm = 'expand_dims(%d, c=%r%s)' % (ax, cval, '' if dual is None else ', dual=%r' % dual)
+                    try:
+                        y = x0.expand_dims(ax, c=cval) if dual is None else x0.expand_dims(ax, c=cval, dual=dual)
+                    except (ValueError, KeyError, IndexError) as e:
+                        raised['expand_scenario:' + type(e).__name__] = raised.get('expand_scenario:' + type(e).__name__, 0) + 1
+                        continue
+                    ctx.count()
+                    exprs.append(valid_expr(y, sym, False))
+                    meta.append({'op': nm, 'symmetry': sym, 'fermionic': False, 'program': [nm], 'result': describe(y),
+                                 '_rp': ('lazy_scenario', x0_full, nm, y)})
+            ctx.nontrivial(('expand-charged', sym, str(cval), str([ix.dual for ix in x0.indices])))
+        except (ValueError, KeyError, IndexError) as e:
+            raised['expand_scenario:' + type(e).__name__] = raised.get('expand_scenario:' + type(e).__name__, 0) + 1
     # ---- decompositions of matrices of every kind (any total charge incl. odd, any directions, blocks stored in random order):
     #      every factor is judged (the random programs reach a decomposition only now and then)
     import symmray.linalg as la2
@@ -801,7 +825,7 @@ def _rp_lazy(sr, ins, pr, r):
     except Exception as e:
         print('  the operation raises now (%s: %s): no array is returned' % (type(e).__name__, e))
         return []
-    now, rec = coq_valid([y, ins['result']], pr['symmetry'], True)
+    now, rec = coq_valid([y, ins['result']], pr['symmetry'], pr['fermionic'])
     print('  Coq validity predicate on the array returned now: %s; on the recorded array: %s' % (now, rec))
     return _invalid(y, now, 'x0.' + pr['step'])
 
